@@ -180,7 +180,10 @@ def report(pid, mod, total, tier, seed, wall_s, mode):
         print("INCONCLUSIVE property=%s reason=nothing observed" % pid)
         return 2
     if mode == "replay":
-        print(summary + " -> the recorded case did not violate the property in this run")
+        if old:
+            print(summary + " -> the recorded case reproduced only the known finding(s) listed above")
+        else:
+            print(summary + " -> the recorded case did not violate the property in this run")
         return 0
     interesting = {k: v for k, v in total.counters.items() if isinstance(v, int)}
     print(summary + " -> held; observed: " + json.dumps(interesting, sort_keys=True))
